@@ -19,6 +19,12 @@
 (*              several targets are alternatives (OR)                      *)
 (*  "case"      flag = TRUE upper / FALSE lower                            *)
 (*  "setvalue"  s2 = new string value for every value in scope             *)
+(*  "hashes"    hash-field splitting: m = Seq(<<algorithm name, <<>>>>) of   *)
+(*              the valid algorithms, s1 = field prefix, flag = leave the   *)
+(*              algorithm name out of the field name; an item on the field  *)
+(*              Hashes / Hash whose values read ALGO=value becomes one      *)
+(*              predicate <prefix><ALGO> = value per value, linked and      *)
+(*              negated like the values of the item were                    *)
 (*  "nest"      sub = the transformations of a nested pipeline             *)
 (* scope: "all" | "include" names | "exclude" names  (field name conditions)*)
 (*                                                                         *)
@@ -121,10 +127,49 @@ Work(w, Ts, k) ==     \* w == [alts |-> Seq([name, vts, wrap]), dropped]
          ELSE Work(w, Ts, k + 1)
 
 \* keyword mapped to a field keeps its "somewhere in the event" meaning: substring match
-WrapKw(v) == IF v.t \in {"str", "cased"} THEN [v EXCEPT !.parts = AddEnd(AddStart(@))] ELSE v
+\* (every alternative of an expansion value alike; what "somewhere in the event" means for a number is not said)
+RECURSIVE WrapKw(_)
+WrapKw(v) == IF v.t \in {"str", "cased"} THEN [v EXCEPT !.parts = AddEnd(AddStart(@))]
+             ELSE IF v.t = "exp" THEN [v EXCEPT !.vals = [k \in 1..Len(@) |-> WrapKw(@[k])]] ELSE v
+
+\* ---- hash-field splitting ----------------------------------------------------------------
+F_Hashes == <<72,97,115,104,101,115>>  F_Hash == <<72,97,115,104>>
+UpperT(t) == [k \in 1..Len(t) |-> UpperC(t[k])]
+\* a value "ALGO=hash" (a leading / trailing wildcard of contains etc. is not part of either):
+\* [ok, algo (upper case), hash] ; anything else is not covered by the documentation
+HashParse(v) ==
+    LET p0 == IF v.parts # <<>> /\ v.parts[1] = STAR THEN Tail(v.parts) ELSE v.parts
+        p == IF p0 # <<>> /\ p0[Len(p0)] = STAR THEN SubSeq(p0, 1, Len(p0) - 1) ELSE p0
+        E == {i \in 1..Len(p) : p[i] = 61}
+    IN  IF v.t # "str" \/ v.phs # <<>> \/ Cardinality(E) # 1 \/ (\E i \in 1..Len(p) : p[i] < 0 \/ p[i] \in {CH_BSL, 124, CH_STAR, CH_QM})
+        THEN [ok |-> FALSE, algo |-> <<>>, hash |-> <<>>]
+        ELSE LET e == CHOOSE i \in E : TRUE IN
+             [ok |-> e > 1 /\ e < Len(p), algo |-> UpperT(SubSeq(p, 1, e - 1)), hash |-> SubSeq(p, e + 1, Len(p))]
+RECURSIVE XItemQE(_, _, _)
+HashRewrite(item, T, rest, nativeCidr) ==
+    LET r == Apply(item.vals, item.chain, TRUE)
+        hs == [k \in 1..Len(r.vals) |-> HashParse(r.vals[k])]
+        valid(h) == h.ok /\ \E j \in 1..Len(T.m) : T.m[j][1] = h.algo
+        sub(h) == XItemQE([field |-> T.s1 \o (IF T.flag THEN <<>> ELSE h.algo), chain |-> <<>>,
+                           vals |-> <<[t |-> "s", s |-> h.hash, num |-> <<0, 1>>, b |-> FALSE]>>, single |-> TRUE], rest, nativeCidr)
+    IN  IF r.status = "reject" THEN [st |-> "fail", e |-> QTrue]
+        ELSE IF r.status # "ok" \/ r.vals = <<>> \/ (\E k \in 1..Len(hs) : ~valid(hs[k])) THEN [st |-> "unspec", e |-> QTrue]
+        ELSE LET rs == [k \in 1..Len(hs) |-> sub(hs[k])]
+                 args == [k \in 1..Len(rs) |-> rs[k].e]
+                 linked == IF Len(args) = 1 THEN args[1] ELSE IF r.linking = "and" THEN QAnd(args) ELSE QOr(args)
+             IN  [st |-> Worst([k \in 1..Len(rs) |-> IF rs[k].st = "dropped" THEN "unspec" ELSE rs[k].st]),
+                  e |-> IF r.negated THEN QNot(linked) ELSE linked]
 
 XItemQE(item, Ts, nativeCidr) ==      \* [st |-> ok|fail|unspec|dropped, e]
-    LET w == Work([alts |-> <<[name |-> item.field, vts |-> <<>>, wrap |-> FALSE]>>, dropped |-> FALSE], Flatten(Ts), 1)
+    LET F == Flatten(Ts)
+        hashAt == {k \in 1..Len(F) : F[k].type = "hashes"}
+    IN
+    IF hashAt # {} /\ item.field \in {F_Hashes, F_Hash} THEN
+        \* specified for the splitting as FIRST step (what follows acts on the new items)
+        (IF 1 \in hashAt /\ InScope(F[1].scope, item.field) THEN HashRewrite(item, F[1], Tail(F), nativeCidr)
+         ELSE [st |-> "unspec", e |-> QTrue])
+    ELSE
+    LET w == Work([alts |-> <<[name |-> item.field, vts |-> <<>>, wrap |-> FALSE]>>, dropped |-> FALSE], F, 1)
     IN  IF w.dropped THEN [st |-> "dropped", e |-> QTrue]
         ELSE LET rs == [j \in 1..Len(w.alts) |->
                           ItemQEx([item EXCEPT !.field = w.alts[j].name], nativeCidr,
